@@ -218,7 +218,7 @@ func (s *state) node(t *rapid.T, d int) *ast.Node {
 		}
 		return n
 	case k <= 6:
-		kinds := []ast.GKind{ast.GCap, ast.GCap, ast.GNamed, ast.GNon, ast.GAtomic}
+		kinds := []ast.GKind{ast.GCap, ast.GCap, ast.GNamed, ast.GNamed, ast.GNon, ast.GAtomic, ast.GAtomic}
 		if !s.cfg.NoLook {
 			kinds = append(kinds, ast.GLookahead, ast.GNegLookahead)
 			if !s.cfg.NoLookbehind {
@@ -314,6 +314,18 @@ func (s *state) node(t *rapid.T, d int) *ast.Node {
 		default:
 			return ast.Empty()
 		}
+	case k == 13 && !s.cfg.NoBackref:
+		// a capture followed (somewhere later) by a reference to it
+		g := ast.Group(ast.GCap, s.node(t, d-1))
+		if rapid.Bool().Draw(t, "namedcap") {
+			g.G = ast.GNamed
+			g.S = fmt.Sprintf("n%d", s.nNamed)
+			s.nNamed++
+			s.names = append(s.names, g.S)
+		}
+		return ast.Seq(g, s.node(t, d-1), &ast.Node{K: ast.KBackref, Num: -1 - rapid.IntRange(0, 5).Draw(t, "refslot")})
+	case k == 14:
+		return ast.Group(ast.GAtomic, s.node(t, d-1))
 	default:
 		return s.atom(t)
 	}
